@@ -28,7 +28,8 @@ class C19(Prop):
     search_budget = {'quick': 20000, 'thorough': 200000}
     rule = ('pure case = (maxBytes, maxN, job-group spec sizes, job spec sizes); specs are real JSON dicts whose orjson size is the '
             'wanted size; sizes are random and boundary-directed (running sum = maxBytes-1 / maxBytes, bunch length = maxN); '
-            'non-trivial = accepted input producing >= 2 bunches; a second stream uses realistic job-group specs (job_group_id, in_update_parent_id / '
+            'in 45% of the cases the padding text is non-ASCII (2-, 3-, 4-byte UTF-8 characters, mixed), sizes always mean BYTES of the real '
+            'serialisation and the byte-limit oracle measures the posted bytes; non-trivial = accepted input producing >= 2 bunches; a second stream uses realistic job-group specs (job_group_id, in_update_parent_id / '
             'absolute_parent_id) of nested groups whose parent ids are NOT in sorted order. submits case = a REAL aioclient.Batch whose client is a recorder: '
             '1-3 rounds, each creating job groups and jobs (interleaved, padded attributes) through create_job_group / create_job and then '
             'calling submit(max_bunch_bytesize, max_bunch_size) — job groups are also NESTED (sub-group of an earlier group of the same round or of '
@@ -48,28 +49,56 @@ class C19(Prop):
         self.ac = ac
         self.fn = ac.Batch._create_bunches
 
-    # a spec whose serialized size is exactly n (n >= 8):  {"i":K,"p":"xxx"}
+    # non-ASCII text as orjson puts it on the wire (raw UTF-8): 2-, 3- and 4-byte characters
+    UNI = {2: '\u00e9', 3: '\u4e2d', 4: '\U0001f9ec'}
+
+    @classmethod
+    def filler(cls, n_bytes, uni, idx=0):
+        """text of exactly n_bytes UTF-8 bytes; uni = None/0 (ASCII), 2, 3, 4 (characters of that width) or 'mix'"""
+        out = []
+        left = n_bytes
+        k = idx
+        while uni and left > 0:
+            w = uni if uni != 'mix' else (2, 3, 4, 1)[k % 4]
+            k += 1
+            if w == 1 or w > left:
+                break
+            out.append(cls.UNI[w])
+            left -= w
+            if uni == 'mix' and k % 4 == 0 and left:
+                out.append('x')
+                left -= 1
+        return ''.join(out) + 'x' * left
+
     @staticmethod
-    def spec(idx, n):
+    def true_bytes(spec):
+        """the bytes the client really serialises for a spec (orjson: compact separators, raw UTF-8)"""
+        return len(json.dumps(spec, separators=(',', ':'), ensure_ascii=False).encode('utf-8'))
+
+    # a spec whose serialized size is exactly n BYTES (n >= 8):  {"i":K,"p":"…"}
+    @classmethod
+    def spec(cls, idx, n, uni=None):
         base = {'i': idx, 'p': ''}
-        k = len(json.dumps(base, separators=(',', ':')).encode())
+        k = cls.true_bytes(base)
         assert n >= k, (n, k)
-        base['p'] = 'x' * (n - k)
+        base['p'] = cls.filler(n - k, uni, idx)
+        assert cls.true_bytes(base) == n
         return base
 
     MIN = 16  # smallest spec size used (index up to 4 digits)
 
     # a job-group spec as `_create_job_group` builds it (job_group_id, in_update_parent_id / absolute_parent_id) whose serialized size is n
-    @staticmethod
-    def group_spec(idx, n, gid, parent):
+    @classmethod
+    def group_spec(cls, idx, n, gid, parent, uni=None):
         base = {'job_group_id': gid, 'i': idx, 'p': ''}
         if parent >= 0:
             base['in_update_parent_id'] = parent          # parent created in this update (0 = the root of a new batch)
         else:
             base['absolute_parent_id'] = -parent - 1      # parent already submitted
-        k = len(json.dumps(base, separators=(',', ':')).encode())
+        k = cls.true_bytes(base)
         assert n >= k, (n, k)
-        base['p'] = 'x' * (n - k)
+        base['p'] = cls.filler(n - k, uni, idx)
+        assert cls.true_bytes(base) == n
         return base
 
     MIN_G = 72  # smallest realistic job-group spec (ids up to 3 digits)
@@ -94,7 +123,10 @@ class C19(Prop):
                     parents.append(0)
             gsizes = [max(self.MIN_G, min(max_bytes - 1, rng.choice([self.MIN_G, self.MIN_G + 3, 90, 120]))) for _ in range(ng)]
             jsizes = [rng.randint(self.MIN, max(self.MIN, min(max_bytes - 1, self.MIN + 40))) for _ in range(rng.choice([0, 1, 3, 7]))]
-            yield {'maxBytes': max_bytes, 'maxN': max_n, 'groups': gsizes, 'jobs': jsizes, 'gparents': parents}
+            case = {'maxBytes': max_bytes, 'maxN': max_n, 'groups': gsizes, 'jobs': jsizes, 'gparents': parents}
+            if rng.random() < 0.45:
+                case['uni'] = rng.choice([2, 3, 4, 'mix', 'mix'])
+            yield case
 
     def cases(self, rng, n, tier):
         for _ in range(n):
@@ -123,7 +155,10 @@ class C19(Prop):
             if mode > 0.97:
                 max_n = 0 if rng.random() < 0.5 else max_n
                 max_bytes = 0 if max_n else max_bytes
-            yield {'maxBytes': max_bytes, 'maxN': max_n, 'groups': sizes[:ng], 'jobs': sizes[ng:]}
+            case = {'maxBytes': max_bytes, 'maxN': max_n, 'groups': sizes[:ng], 'jobs': sizes[ng:]}
+            if rng.random() < 0.45:
+                case['uni'] = rng.choice([2, 3, 4, 'mix', 'mix'])      # the padding text is non-ASCII: characters != bytes
+            yield case
         yield from self._nested_cases(rng, max(300, n // 6))
         for _ in range(max(200, n // 8)):
             yield self._submits_case(rng)
@@ -137,6 +172,7 @@ class C19(Prop):
             ops = []
             shape = rng.random()
             nest = rng.random()
+            uni_round = rng.random() < 0.45
             for _i in range(rng.choice([0, 1, 2, 3, 4, 6, 9])):
                 if shape < 0.2:
                     kind = 'j'
@@ -145,6 +181,8 @@ class C19(Prop):
                 else:
                     kind = rng.choice('gjj')
                 op = [kind, rng.choice([0, 0, 0, 1, 7, 40, 200])]
+                if uni_round and op[1]:
+                    op[1] = [op[1] * rng.choice([1, 2]), rng.choice([2, 3, 4, 'mix'])]
                 # parent job group: None = the root; else the index (over the whole case) of an earlier job group — a group of this
                 # round (in_update_parent_id) or of an earlier, already submitted round (absolute_parent_id)
                 if n_groups and nest < 0.75:
@@ -159,7 +197,7 @@ class C19(Prop):
                     last_was_root_group = len(op) == 2
                     n_groups += 1
                 ops.append(op)
-            max_bytes = rng.choice([10 ** 6, 10 ** 6, 2000, 900, 520, 330])
+            max_bytes = rng.choice([10 ** 6, 2000, 900, 520, 330] if uni_round else [10 ** 6, 10 ** 6, 2000, 900, 520, 330])
             if rng.random() < 0.04:
                 max_bytes = 250                    # below the size of a job spec: the assertion of _create_bunches fires
             rounds.append({'maxBytes': max_bytes, 'maxN': rng.choice([1, 2, 3, 5, 1024, 1024]), 'ops': ops})
@@ -240,9 +278,9 @@ class C19(Prop):
             self.n_jobs += self.pending[1]
             return C19._Resp(r)
 
-    @staticmethod
-    def _nbytes(spec):
-        return len(json.dumps(spec, separators=(',', ':')).encode())     # = the orjson shim the client uses
+    @classmethod
+    def _nbytes(cls, spec):
+        return cls.true_bytes(spec)     # the real serialisation (orjson: raw UTF-8), never the client's own accounting
 
     def _play(self, c):
         """run the script on a real Batch; per round: created uids, sizes, the requests of the submit"""
@@ -266,7 +304,8 @@ class C19(Prop):
                     uid += 1
                     attrs = {'uid': str(uid)}
                     if pad:
-                        attrs['p'] = 'x' * pad
+                        # pad = n ASCII characters, or [n, uni]: n BYTES of 2- / 3- / 4-byte / mixed UTF-8 text
+                        attrs['p'] = 'x' * pad if isinstance(pad, int) else self.filler(pad[0], pad[1], uid)
                     if kind == 'g':
                         n0 = len(batch._job_group_specs)
                         group_objs.append(owner.create_job_group(attributes=attrs))
@@ -449,10 +488,10 @@ class C19(Prop):
     def _run(self, c):
         ng = len(c['groups'])
         if 'gparents' in c:
-            g = [self.group_spec(i, s, i + 1, c['gparents'][i]) for i, s in enumerate(c['groups'])]
+            g = [self.group_spec(i, s, i + 1, c['gparents'][i], c.get('uni')) for i, s in enumerate(c['groups'])]
         else:
-            g = [self.spec(i, s) for i, s in enumerate(c['groups'])]
-        j = [self.spec(ng + i, s) for i, s in enumerate(c['jobs'])]
+            g = [self.spec(i, s, c.get('uni')) for i, s in enumerate(c['groups'])]
+        j = [self.spec(ng + i, s, c.get('uni')) for i, s in enumerate(c['jobs'])]
         try:
             bs = self.fn(None, g, j, c['maxBytes'], c['maxN'])
         except AssertionError:
@@ -497,7 +536,7 @@ class C19(Prop):
                 return 'empty bunch'
             if len(b) > c['maxN']:
                 return f'bunch of {len(b)} specs exceeds max_bunch_size {c["maxN"]}'
-            nb = sum(sb.n_bytes for sb in b)
+            nb = sum(len(bytes(sb.spec_bytes)) for sb in b)          # the bytes really posted, not the client's own accounting
             if nb >= c['maxBytes']:
                 return f'bunch of {nb} bytes not below max_bunch_bytesize {c["maxBytes"]}'
         return None
@@ -575,8 +614,11 @@ class C19(Prop):
                 for op in r['ops']:
                     if op[1]:
                         old = op[1]
-                        op[1] = 0
-                        if not fails(cur):
+                        for new in ([0] if isinstance(old, int) else [0, old[0]]):
+                            op[1] = new
+                            if fails(cur):
+                                break
+                        else:
                             op[1] = old
             return cur
         if 'gparents' in c:
